@@ -457,6 +457,9 @@ class VSocket:
 
     def recv(self, n, flags=0):
         net = self._net
+        net.recv_calls += 1
+        if net.recv_calls > net.max_recv_calls:
+            raise HarnessHang('more than %d recv() calls in one run: the program keeps reading' % net.max_recv_calls)
         if self.closed:
             raise OSError(errno.EBADF, 'Bad file descriptor')
         if self.pending_error is not None and self.pending_error != 'never':
@@ -480,6 +483,8 @@ class VSocket:
         net.advance(self.timeout or 0)
         net.stalls += 1
         net.stall_log.append(self.rec['id'])
+        if net.stalls > net.max_stalls:
+            raise HarnessHang('more than %d read timeouts in one run: the program keeps waiting' % net.max_stalls)
         if self.timeout is None:
             # a blocking socket with no timeout would hang for ever: surface it as a hang
             raise HarnessHang('recv() on a blocking socket without timeout would never return')
@@ -591,6 +596,9 @@ class FakeNet:
         self.time_calls = 0
         self.max_time_calls = 2_000_000
         self.stalls = 0
+        self.max_stalls = 2000
+        self.recv_calls = 0
+        self.max_recv_calls = 300000
         self.stall_log = []
         self.segment = segment
         self.gai_calls = []
